@@ -40,3 +40,17 @@ Theorem C19_resend_queue_bounded : forall who pol key h,
   (length (c_resendMsgs c) <= 1)%nat \/ (c_msgState c <> c_encrypted /\ c_mayRetransmit c <> c_noRetransmit).
 Proof. exact resend_queue_bounded. Qed.
 Print Assumptions C19_resend_queue_bounded.
+
+(* ---- the MAC keys waiting for disclosure, two-party system, every schedule ----
+   On the key-management model that is compared with the code (the system of C04: real key contexts of both sides, two
+   FIFO queues, any interleaving of sends and in-order deliveries, any number of messages in flight, any number of
+   rotations): at most 4 MAC keys ever wait for disclosure on either side - between two of its own sends a party rotates
+   its own key at most once and the peer's key at most once, each rotation retires at most 2 recorded keys, and the next
+   message sent flushes the list (Proto/PendingBound.v). *)
+From OTR Require Import Proto.Ratchet Proto.RatchetKeys Proto.PendingBound.
+Theorem C19_pending_disclosure_bounded : forall a1 a2 b1 b2 sched,
+  own true a1 -> own true a2 -> own false b1 -> own false b2 -> Forall cev_ok sched ->
+  let n := fold_left cstep sched (cinit a1 a2 b1 b2) in
+  (length (oldMACKeys (kA n)) <= 4)%nat /\ (length (oldMACKeys (kB n)) <= 4)%nat.
+Proof. exact pending_disclosure_bounded_after_ake. Qed.
+Print Assumptions C19_pending_disclosure_bounded.
